@@ -430,6 +430,11 @@ func c18Writer(kind int, key []byte, variant int) Call {
 		return Call{Req: Req{Kind: "mutate", Table: concTable, Key: key, Muts: []Mutation{{Kind: "delrow"}}}, Now: now}
 	case 2:
 		return Call{Req: Req{Kind: "rmw", Table: concTable, Key: key, Rules: []Rule{{Kind: "append", Fam: "cf", Q: []byte("q000"), V: []byte("+")}, {Kind: "incr", Fam: "cf2", Q: []byte("n"), Amt: int64(variant)}}}, Now: now}
+	case 4:
+		// every row goes while the scan is parked with the lock released
+		return Call{Req: Req{Kind: "drop", Table: concTable, All: true}, Now: now}
+	case 5:
+		return Call{Req: Req{Kind: "drop", Table: concTable, HasPfx: true, Prefix: key}, Now: now}
 	}
 	return Call{Req: Req{Kind: "mutaterows", Table: concTable, Entries: []Entry{{Key: key, Muts: []Mutation{{Kind: "set", Fam: "cf2", Q: []byte("e"), Ts: 5000, V: []byte("e")}}}, {Key: []byte("k99new"), Muts: []Mutation{{Kind: "set", Fam: "cf", Q: []byte("new"), Ts: 5000, V: []byte("n")}}}}}, Now: now}
 }
@@ -456,7 +461,7 @@ func genC18(out, tier string, rng *rand.Rand) {
 			}
 			// the scan parks at r.lock (1 step) and then at one r.send per row
 			for h := 1; h <= nrows; h++ {
-				for kind := 0; kind < 4; kind++ {
+				for kind := 0; kind < 6; kind++ {
 					for pos := -1; pos <= 1; pos++ {
 						target := h + pos // scan position h: rows < h already sent
 						if target < 0 || target >= nrows {
